@@ -2505,7 +2505,12 @@ impl SignedDurationRound {
             increment,
         );
 
-        let seconds = rounded / t::NANOS_PER_SECOND;
+        // N.B. We use truncating division here since a signed duration's
+        // seconds and nanoseconds always have the same sign. Euclidean
+        // division would give us one fewer second for a negative duration
+        // with a fractional second, which wrongly overflows when the number of
+        // seconds is `i64::MIN`.
+        let seconds = rounded.div_ceil(t::NANOS_PER_SECOND);
         let seconds =
             t::NoUnits::try_rfrom("seconds", seconds).map_err(|_| {
                 err!(
@@ -2515,7 +2520,7 @@ impl SignedDurationRound {
                     singular = self.smallest.singular(),
                 )
             })?;
-        let subsec_nanos = rounded % t::NANOS_PER_SECOND;
+        let subsec_nanos = rounded.rem_ceil(t::NANOS_PER_SECOND);
         // OK because % 1_000_000_000 above guarantees that the result fits
         // in a i32.
         let subsec_nanos = i32::try_from(subsec_nanos).unwrap();
